@@ -277,3 +277,12 @@ func WatchWrites(root interface{}, tag string) {}
 func WatchOn(on bool) {}
 
 func Note(s string) {}
+
+// BytesOf returns arbitrary bytes whose length is one of lens (the engine forks on it).
+func BytesOf(tag string, lens ...int) []byte {
+	n := lens[0]
+	if len(lens) > 1 {
+		n = lens[Choose(tag+".len", len(lens))]
+	}
+	return Bytes(tag, n)
+}
